@@ -1238,8 +1238,8 @@ def pixel_layers(ctx):
     # whose column / row differ by a multiple of 1,000,000 (and a 2**20 neighbour), requested in a fixed order - the first one is
     # stored before the others are asked for, so a tile that is found under the path of another tile shows the wrong ground.
     # Tile sizes whose multiple of 1,000,000 is not a multiple of 2048 (the position code carries 11 bits per axis).
-    add(3857, {'srs': 'EPSG:3857', 'bbox': [0, 0, 20 * 2000010, 30 * 2000010], 'res': [1], 'tile_size': [20, 30], 'origin': 'll'}, [2, 2], 5)
-    out[-1][0].force_points = {0: [(5, 7), (1000005, 7), (2000005, 7), (1048575, 7), (5, 1000007), (5, 2000007), (1000005, 1000007),
+    add(3857, {'srs': 'EPSG:3857', 'bbox': [0, 0, 20 * 2000010, 30 * 2000010], 'res': [4, 1], 'tile_size': [20, 30], 'origin': 'll'}, [2, 2], 5)
+    out[-1][0].force_points = {1: [(5, 7), (1000005, 7), (2000005, 7), (1048575, 7), (5, 1000007), (5, 2000007), (1000005, 1000007),
                                    (6, 1048575)]}
     add(25832, {'srs': 'EPSG:25832', 'bbox': [0, 0, 2 * 50 * 1100000, 2 * 50 * 1050000], 'res': [8, 2], 'tile_size': [50, 50], 'origin': 'ul'},
         [3, 2], 0)
